@@ -35,6 +35,10 @@ Value& RAWExpression::value(Context & ctx) const
   Value& val = _args[0]->value(ctx);
   Integer n = 0, v = 0;
 
+  /* a table, null or not, is not an argument of this function */
+  if (val.type().level())
+    throw RuntimeError(EXC_RT_FUNC_ARG_TYPE_S, KEYWORDS[FUNC_RAW]);
+
   if (!val.isNull())
   {
     switch (val.type().major())
